@@ -623,7 +623,7 @@ theorem defPart_ok (k : Kind) (e : Elem) (h : elemOk k e = true) : ∃ p, defPar
   · have hf : fmtOk e.d.format = true := by simp [elemOk] at h; exact h.2
     cases hr : readValue e <;> simp_all [valueOk, renderNum]
     rename_i q b
-    obtain ⟨t, ht⟩ := numToStr_ok e.d.format q hf
+    obtain ⟨t, ht⟩ := numToStr_ok e.d.format (preRound e.d.format b q) hf
     simp [ht]
   · cases hr : readValue e <;> simp_all [valueOk]
   · cases hr : readValue e <;> simp_all [valueOk]
